@@ -335,7 +335,7 @@ def build(tier, repo):
                         if mm2:
                             out.add(mm2.group(1))
             if n.get("k") in ("BinaryOperator", "CompoundAssignOperator") and n.get("op", "").endswith("=") \
-                    and n.get("op") not in ("==", "!=", "<=", ">=") and not n.get("bm") and n.get("b") is not None:
+                    and n.get("op") not in ("==", "!=", "<=", ">=") and n.get("b") is not None:
                 t = c.stmt_text_until_semicolon(n["b"])
                 mm2 = re.match(r"\s*MAT_BUF[DZI]?\(\s*(\w+)\s*\)\s*\[", t)
                 if mm2:
